@@ -235,6 +235,7 @@ func c02WorkerMain(script string) {
 	var spec c02Chron
 	var ch chronicler.Chronicler
 	swampRig := &c25Swamp{}
+	var fsizeLimit uint64
 	live := 0
 	n := 0
 	for sc.Scan() {
@@ -328,6 +329,30 @@ func c02WorkerMain(script string) {
 						res = "ok size=" + strconv.FormatInt(sz, 10)
 					}
 				}
+			case "probe":
+				// what a reader sees right now (the writer stays open): the file is copied aside —
+				// with pwrite, so that no write(2) is added to the run — and loaded there
+				if fsizeLimit != 0 { // the copy must not be cut by the fault that is being emulated
+					c02SetFsize(0)
+					defer c02SetFsize(fsizeLimit)
+				}
+				src, err := os.ReadFile(filepath.Join(dir, "sw.hyd"))
+				if err != nil {
+					res = "ok -"
+					break
+				}
+				pd := filepath.Join(dir, "probe")
+				_ = os.MkdirAll(pd, 0o755)
+				if pf, err := os.OpenFile(filepath.Join(pd, "sw.hyd"), os.O_CREATE|os.O_TRUNC|os.O_WRONLY, 0o644); err == nil {
+					_, _ = pf.WriteAt(src, 0)
+					_ = pf.Close()
+				}
+				pl := live
+				pc := spec
+				pc.live = &pl
+				b := beacon.New()
+				pc.make(pd).Load(b)
+				res = "ok " + c02BeaconState(b)
 			case "zap":
 				// damage in the middle of the file: zero the size field of the N-th block
 				nth, _ := strconv.Atoi(f[1])
@@ -361,6 +386,7 @@ func c02WorkerMain(script string) {
 				// RLIMIT_FSIZE soft limit (0 = unlimited again)
 				lim, _ := strconv.ParseUint(f[1], 10, 64)
 				c02SetFsize(lim)
+				fsizeLimit = lim
 			case "fsizeplus":
 				// the main file may grow by K more bytes (0: the next append fails outright)
 				k, _ := strconv.ParseUint(f[1], 10, 64)
@@ -372,6 +398,7 @@ func c02WorkerMain(script string) {
 					k = 1
 				}
 				c02SetFsize(cur + k)
+				fsizeLimit = cur + k
 			case "swamp", "ssave", "sdel", "stick", "sclose", "sload":
 				res = swampRig.cmd(dir, f)
 			default:
@@ -1610,6 +1637,8 @@ func c02EmitCase(w *bufio.Writer, co c02CaseOut, imgFor func(ki int, c c02CmdOut
 			}
 		case "size":
 			fmt.Fprintln(w, "act size "+strings.TrimPrefix(c.Res, "ok "))
+		case "probe":
+			fmt.Fprintln(w, "act probe "+strings.TrimPrefix(c.Res, "ok "))
 		case "plant", "live", "fsize", "fsizeplus", "cut", "zap":
 		default:
 			fmt.Fprintln(w, "act "+c.Text)
@@ -1798,7 +1827,7 @@ func c02RunOps(in *bufio.Scanner, w *bufio.Writer, probe bool) {
 			switch f[1] {
 			case "load":
 				fmt.Fprintln(w, "ok "+f[len(f)-1])
-			case "sync", "close", "size":
+			case "sync", "close", "size", "probe":
 				fmt.Fprintln(w, "ok "+f[len(f)-1])
 			default:
 				fmt.Fprintln(w, "ok")
@@ -1834,9 +1863,9 @@ func c02RunOps(in *bufio.Scanner, w *bufio.Writer, probe bool) {
 			fmt.Fprintln(w, r.evalImage(img))
 		case "end":
 			fmt.Fprintln(w, "end")
-		case "tick":
+		case "tick", "tick0", "tickdel":
 			n, _ := strconv.Atoi(f[1])
-			fmt.Fprintln(w, "tick "+c02Tick(n))
+			fmt.Fprintln(w, "tick "+c02TickMode(n, f[0]))
 		default:
 			fmt.Fprintln(w, "bad-op")
 		}
